@@ -109,6 +109,10 @@ fn handler(req: Request) -> Response {
     let seg: Vec<&str> = path.split('/').collect();
     if seg.len() >= 4 && seg[1] == "gate" {
         let (kind, id) = (seg[2].to_string(), seg[3].to_string());
+        // f: a large upload is fetched first; the gate is entered by the second call, which owns the upload's file
+        if kind == "f" && req.body.is_pending() {
+            return Response::get_body_and_reprocess(10_000_000);
+        }
         let (m, cv) = gate();
         let mut g = m.lock().unwrap();
         g.entered += 1;
@@ -125,6 +129,8 @@ fn handler(req: Request) -> Response {
         cv.notify_all();
         drop(g);
         return match kind.as_str() {
+            // x: the gate is entered by the first call (body pending); the body is fetched afterwards
+            "x" if req.body.is_pending() => Response::get_body_and_reprocess(10_000_000),
             "e" => Response::text(500, "scripted error"),
             "p" => panic!("scripted handler panic"),
             "d" => Response::drop_connection(),
@@ -357,6 +363,9 @@ pub fn case_shutdown(ctx: &mut Ctx, n: &str, phases: &str, delay: &str) {
     let ph: Vec<char> = phases.chars().filter(|c| *c != '-').collect();
     let delay_ms: u64 = delay.parse().unwrap();
     let obs = guard(move || {
+        let files_now = || std::fs::read_dir(super::c06::scratch_dir()).map(|r| r.filter(|e| e.as_ref().map(|e| e.path().is_file()).unwrap_or(false)).count()).unwrap_or(0);
+        let files_before = files_now();
+        let mut leak = 0usize;
         let mut srv = start(nn);
         let mut conns: Vec<TcpStream> = Vec::new();
         for (i, p) in ph.iter().enumerate() {
@@ -373,6 +382,19 @@ pub fn case_shutdown(ctx: &mut Ctx, n: &str, phases: &str, delay: &str) {
                     if !wait_gauge(|g| g.inside.contains(&id), Duration::from_secs(8)) { return "setup-failed".to_string(); }
                 }
                 'b' => { let _ = c.write_all(b"POST /up HTTP/1.1\r\ncontent-length: 1000\r\n\r\n0123456789"); }
+                'x' => {
+                    // the handler is running on a request that announced its body with Expect; the body has not been asked for yet
+                    let _ = c.write_all(format!("POST /gate/x/{i} HTTP/1.1\r\ncontent-length: 70000\r\nexpect: 100-continue\r\n\r\n").as_bytes());
+                    let id = i.to_string();
+                    if !wait_gauge(|g| g.inside.contains(&id), Duration::from_secs(8)) { return "setup-failed".to_string(); }
+                }
+                'f' => {
+                    // the handler is running on a request whose body was uploaded into a file of the cache directory
+                    let _ = c.write_all(format!("POST /gate/f/{i} HTTP/1.1\r\ncontent-length: 100000\r\n\r\n").as_bytes());
+                    let _ = c.write_all(&vec![b'f'; 100_000]);
+                    let id = i.to_string();
+                    if !wait_gauge(|g| g.inside.contains(&id), Duration::from_secs(8)) { return "setup-failed".to_string(); }
+                }
                 _ => { let _ = c.write_all(b"GET /big HTTP/1.1\r\n\r\n"); }
             }
             conns.push(c);
@@ -405,6 +427,23 @@ pub fn case_shutdown(ctx: &mut Ctx, n: &str, phases: &str, delay: &str) {
                 'H' => { let _ = c.write_all(b"\r\n\r\nGET /ok HTTP/1.1\r\n\r\nGET /ok HTTP/1.1\r\n\r\n"); read_response(&mut c) }
                 'r' => { release(&i.to_string()); read_response(&mut c) }
                 'b' => { let _ = c.write_all(&[b'x'; 990]); read_response(&mut c) }
+                'x' => {
+                    release(&i.to_string());
+                    let interim = read_response(&mut c);
+                    if interim != "100/0" { format!("no100:{interim}") } else { let _ = c.write_all(&vec![b'x'; 70_000]); read_response(&mut c) }
+                }
+                'f' => {
+                    // while the handler holds the request the connection must stay; if it is gone, so must the file be
+                    let _ = c.set_read_timeout(Some(Duration::from_millis(300)));
+                    let peek = read_response(&mut c);
+                    let _ = c.set_read_timeout(Some(Duration::from_secs(6)));
+                    if !peek.starts_with("timeout") {
+                        std::thread::sleep(Duration::from_millis(50));
+                        leak += files_now().saturating_sub(files_before);
+                    }
+                    release(&i.to_string());
+                    if peek.starts_with("timeout") { read_response(&mut c) } else { peek }
+                }
                 _ => read_response(&mut c),
             };
             let _ = c.write_all(b"GET /ok HTTP/1.1\r\n\r\n");
@@ -413,7 +452,10 @@ pub fn case_shutdown(ctx: &mut Ctx, n: &str, phases: &str, delay: &str) {
             outs.push(format!("{p}:{first}+{second}"));
         }
         release_all();
-        format!("early={} stopped={} bounded={} late={late} conns={}", u8::from(early), u8::from(stopped), u8::from(stopped && took < 2000), outs.join(","))
+        // every connection has ended: nothing the server created may be left in the cache directory
+        let mut left = files_now().saturating_sub(files_before);
+        for _ in 0..100 { if left == 0 { break; } std::thread::sleep(Duration::from_millis(5)); left = files_now().saturating_sub(files_before); }
+        format!("early={} stopped={} bounded={} late={late} leak={} conns={}", u8::from(early), u8::from(stopped), u8::from(stopped && took < 2000), leak + left, outs.join(","))
     });
     ctx.emit("c13", &[n, phases, delay], &obs);
 }
@@ -518,9 +560,17 @@ pub fn case_shutdown_emfile(ctx: &mut Ctx, n: &str, delay: &str) {
 }
 
 pub fn run_shutdown_emfile(ctx: &mut Ctx) {
-    let cases: &[(usize, u64)] = if ctx.thorough() { &[(1, 0), (2, 100), (3, 300), (1, 450), (4, 600)] } else { &[(1, 0), (2, 300)] };
+    let cases: &[(usize, u64)] = if ctx.thorough() { &[(1, 0), (2, 100), (3, 300), (1, 450), (4, 600), (1, 4200), (2, 9000)] } else { &[(1, 0), (2, 300), (1, 4200)] };
     for (i, (n, d)) in cases.iter().enumerate() {
         if ctx.mine(i as u64 + 1) { case_shutdown_emfile(ctx, &n.to_string(), &d.to_string()); }
+    }
+}
+
+/// c10r: the permit is revoked while a handler owns an upload's file (phase f, alone and next to other connections).
+pub fn run_upload_revoked(ctx: &mut Ctx) {
+    let cases: &[(usize, &str)] = if ctx.thorough() { &[(1, "f"), (2, "f"), (2, "ff"), (3, "fif"), (2, "xf"), (4, "frfb")] } else { &[(1, "f"), (2, "ff"), (3, "fxi")] };
+    for (i, (n, ph)) in cases.iter().enumerate() {
+        if ctx.mine(i as u64 + 1) { case_shutdown(ctx, &n.to_string(), ph, &(7 * i).to_string()); }
     }
 }
 
@@ -553,7 +603,7 @@ pub fn run_limit(ctx: &mut Ctx) {
 pub fn run_shutdown(ctx: &mut Ctx) {
     let mut rng = Rng::new(ctx.seed.wrapping_add(13));
     let mut idx = 0u64;
-    let phases = ['i', 'h', 'r', 'b', 'w', 'I', 'H'];
+    let phases = ['i', 'h', 'r', 'b', 'w', 'I', 'H', 'x', 'f'];
     // fixed schedules first: no connection; every single phase; all slots occupied by idle connections
     let mut cases: Vec<(usize, String)> = vec![(1, "-".to_string()), (3, "-".to_string())];
     for p in phases { cases.push((2, p.to_string())); cases.push((1, p.to_string())); }
@@ -562,7 +612,7 @@ pub fn run_shutdown(ctx: &mut Ctx) {
     for _ in 0..extra {
         let n = rng.range(1, 4) as usize;
         let k = rng.range(1, n as u64) as usize;
-        cases.push((n, (0..k).map(|_| phases[rng.below(7) as usize]).collect()));
+        cases.push((n, (0..k).map(|_| phases[rng.below(phases.len() as u64) as usize]).collect()));
     }
     for (n, ph) in cases {
         idx += 1;
